@@ -942,3 +942,79 @@ async def _b_unsub(ctx: Ctx, a: Actor, st: dict) -> Any:
     if unsub is None:
         return "no-subscription"
     unsub()
+
+
+# ----------------------------------------------------------------------------------------
+# subscriptions (C17)
+# ----------------------------------------------------------------------------------------
+
+
+@step("sub")
+async def _s_sub(ctx: Ctx, a: Actor, st: dict) -> Any:
+    w = ctx.world
+    cli = _cli(ctx, st)
+    kind = st["kind"]
+    tag = st.get("tag", a.aid)
+    unsub = None
+    if kind == "states":
+
+        def on_state(state: Any) -> None:
+            d = {"tag": tag, "cls": type(state).__name__, "key": state.key}
+            if type(state).__name__ == "CameraState":
+                d["data"] = bytes(state.data)
+            w.rec("cb_state", **d)
+
+        cli.subscribe_states(on_state)
+    elif kind == "logs":
+        cli.subscribe_logs(lambda msg: w.rec("cb_log", tag=tag, message=bytes(msg.message)))
+    elif kind == "service_calls":
+        cli.subscribe_service_calls(lambda call: w.rec("cb_service", tag=tag, service=call.service, cls=type(call).__name__))
+    elif kind == "ha_states":
+        on_req = (lambda e, attr: w.rec("cb_ha_request", tag=tag, entity_id=e, attribute=attr)) if st.get("with_request", True) else None
+        cli.subscribe_home_assistant_states(lambda e, attr: w.rec("cb_ha_sub", tag=tag, entity_id=e, attribute=attr), on_req)
+    elif kind == "ble_adv":
+        unsub = cli.subscribe_bluetooth_le_advertisements(lambda adv: w.rec("cb_adv", tag=tag, address=adv.address, cls=type(adv).__name__))
+    elif kind == "ble_raw":
+        unsub = cli.subscribe_bluetooth_le_raw_advertisements(lambda msg: w.rec("cb_raw_adv", tag=tag, n=len(msg.advertisements)))
+    elif kind == "ble_free":
+        unsub = cli.subscribe_bluetooth_connections_free(lambda free, limit: w.rec("cb_free", tag=tag, free=free, limit=limit))
+    elif kind == "voice":
+        plan = list(st.get("start_plan", [{"port": 6055, "delay": 0.0}]))
+        calls = {"n": 0}
+
+        async def handle_start(conversation_id: str, flags: int, audio_settings: Any, wake_word_phrase: Any) -> Any:
+            i = calls["n"]
+            calls["n"] += 1
+            p = plan[min(i, len(plan) - 1)]
+            w.rec("cb_va_start", tag=tag, conversation_id=conversation_id, flags=flags, wake_word_phrase=wake_word_phrase, plan=p)
+            try:
+                if p.get("delay", 0.0) > 0:
+                    await sim_sleep(w, p["delay"])
+            except asyncio.CancelledError:
+                w.rec("cb_va_start_cancelled", tag=tag, conversation_id=conversation_id)
+                raise
+            w.rec("cb_va_start_done", tag=tag, conversation_id=conversation_id, port=p.get("port"))
+            return p.get("port")
+
+        async def handle_stop(abort: bool) -> None:
+            w.rec("cb_va_stop", tag=tag, abort=bool(abort))
+
+        async def handle_audio(data: bytes) -> None:
+            w.rec("cb_va_audio", tag=tag, data=bytes(data))
+
+        async def handle_fin(fin: Any) -> None:
+            w.rec("cb_va_announce", tag=tag, success=bool(fin.success))
+
+        unsub = cli.subscribe_voice_assistant(handle_start=handle_start, handle_stop=handle_stop, handle_audio=handle_audio if st.get("audio", True) else None, handle_announcement_finished=handle_fin if st.get("announce", True) else None)
+    else:
+        raise HarnessError(f"unknown subscription {kind}")
+    if unsub is not None:
+        ctx.subs["sub:" + tag] = unsub
+
+
+@step("unsub")
+async def _s_unsub(ctx: Ctx, a: Actor, st: dict) -> Any:
+    u = ctx.subs.pop("sub:" + st["tag"], None)
+    if u is None:
+        return "no-subscription"
+    u()
